@@ -689,7 +689,7 @@ class BWalk(omp.Region):
         return self.cond_facts(c, pol, env)
 
     def bloop(self, s, env, ctx):
-        hdr = omp.loop_header(s)
+        hdr = omp.loop_header(s, extra_updates=True)
         names = self.assigned_scalars(s.body) | (self.assigned_scalars(S("expr", e=s.inc)) if s.inc is not None else set())
         arrs = self.arrays_written(s)
         if s.init is not None:
@@ -724,6 +724,18 @@ class BWalk(omp.Region):
         ivkey = ("iv", iv, next(omp._fresh))
         ivatom = Poly.atom(ivkey)
         env[iv] = ivatom
+        # walking pointers: a local pointer into an array that the body advances by a loop-invariant amount at the top level of
+        # every iteration points, at the top of iteration iv, (iv - lo) strides further than at loop entry
+        walkers = {}
+        if lo is not None and step == 1 and direction > 0:
+            for n in sorted(x for x in names - {iv} if isinstance(x, str)):
+                if ("ptr", n) not in pre_env or pre_env[("ptr", n)][1] is None:
+                    continue
+                stride = self.pointer_stride(s, n, names, pre_env)
+                if stride is not None:
+                    b0, o0 = pre_env[("ptr", n)]
+                    env[("ptr", n)] = (b0, o0 + stride * (ivatom - lo))
+                    walkers[n] = (b0, o0, stride)
         rng = None
         if lo is not None and bd is not None:
             if direction > 0:
@@ -749,6 +761,11 @@ class BWalk(omp.Region):
         self.bstmt(s.body, env, c1)
         self.havoc(env, names | {iv})
         self.bump(arrs)
+        if walkers and not omp._has_own_break(s.body) and bd is not None and not incl:
+            trips = bd - lo
+            if trips.is_const() and trips.const_value() >= 0:
+                for n, (b0, o0, stride) in walkers.items():
+                    env[("ptr", n)] = (b0, o0 + stride * trips)
         extra = post(env)
         if not omp._has_own_break(s.body) and rng is not None and step in (1, -1) and not incl and iv in env:
             # value of the loop variable after a normal exit of 'for (iv = lo; iv < bd; iv++)': max(lo, bd)
@@ -765,6 +782,87 @@ class BWalk(omp.Region):
             # normal exit: iv reached the bound (only meaningful if the loop ran or not: iv == max(lo, bound) for step 1)
             pass
         return ctx
+
+    def pointer_stride(self, loop, name, names, pre_env):
+        """total amount (Poly) by which the canonical loop advances pointer `name` per iteration, when every write to it is
+        (a) a top-level statement of the loop body of the form p += c, p -= c, p++, p-- (c a literal or a variable the loop does
+        not assign), (b) such an update in the comma list of the header's increment expression, or (c) made by an inner canonical
+        unit-stride loop at the top level of the body that itself only walks the pointer and whose trip count bd - lo is loop
+        invariant and provably >= 0 (contributing stride * trips); else None"""
+        body = loop.body
+        tops = body.body if body is not None and body.k in ("block", "multi") else [body]
+        total = Poly.const(0)
+        seen = 0
+
+        def update(e):
+            """(amount, 1) for an update expression of the pointer, (None, 1) for another kind of write, (0, 0) if not a write"""
+            if e.k == "asg" and e.a[0].k == "var" and e.a[0].name == name:
+                if e.op not in ("+=", "-="):
+                    return None, 1
+                if any(x.k == "var" and x.name in names for x in ewalk(e.a[1])) or any(x.k in ("call", "asg", "incdec", "idx") for x in ewalk(e.a[1])):
+                    return None, 1
+                d = self.form(e.a[1], pre_env)
+                if d is None:
+                    return None, 1
+                return (d if e.op == "+=" else -d), 1
+            if e.k == "incdec" and e.a[0].k == "var" and e.a[0].name == name:
+                return Poly.const(1 if e.op == "++" else -1), 1
+            return Poly.const(0), 0
+
+        def commas(e):
+            if e is not None and e.k == "bin" and e.op == ",":
+                return commas(e.a[0]) + commas(e.a[1])
+            return [e] if e is not None else []
+        for st in tops:
+            if st is None:
+                continue
+            if st.k == "expr" and st.e is not None:
+                for e in commas(st.e):
+                    d, w = update(e)
+                    if w and d is None:
+                        return None
+                    if w:
+                        total = total + d
+                        seen += w
+            elif st.k == "for" and any((x.k in ("asg", "incdec")) and x.a[0].k == "var" and x.a[0].name == name for _s, x in cfront.all_exprs(st)):
+                hdr = omp.loop_header(st, extra_updates=True)
+                if hdr is None:
+                    return None
+                iv2, start, bound, step2, dir2, incl2 = hdr
+                if step2 != 1 or dir2 <= 0 or incl2:
+                    return None
+                if any(x.k == "var" and x.name in names and x.name != iv2 for x in list(ewalk(start)) + list(ewalk(bound))):
+                    return None
+                a_, b_ = self.form(start, pre_env), self.form(bound, pre_env)
+                if a_ is None or b_ is None or self.prover is None or not self.prover.nonneg_by_lb(b_ - a_, {}):
+                    return None
+                inner_names = self.assigned_scalars(st.body) | (self.assigned_scalars(S("expr", e=st.inc)) if st.inc is not None else set())
+                if omp._has_own_break(st.body):
+                    return None
+                inner = self.pointer_stride(st, name, inner_names | names, pre_env)
+                if inner is None:
+                    return None
+                total = total + inner * (b_ - a_)
+                seen += sum(1 for _s, x in cfront.all_exprs(st) if (x.k in ("asg", "incdec")) and x.a[0].k == "var" and x.a[0].name == name)
+        for e in commas(loop.inc):
+            d, w = update(e)
+            if w and d is None:
+                return None
+            if w:
+                total = total + d
+                seen += w
+        nw = 0
+        for st, x in cfront.all_exprs(body):
+            if (x.k in ("asg", "incdec")) and x.a[0].k == "var" and x.a[0].name == name:
+                nw += 1
+            if x.k == "un" and x.op == "&" and x.a[0].k == "var" and x.a[0].name == name:
+                return None
+        for x in (ewalk(loop.inc) if loop.inc is not None else []):
+            if (x.k in ("asg", "incdec")) and x.a[0].k == "var" and x.a[0].name == name:
+                nw += 1
+        if seen == 0 or nw != seen:
+            return None
+        return total
 
     def counter_facts(self, body, names, pre, env, ivatom, rng, direction):
         """scalars that the loop body only ever increments (x++, x += c with c >= 0 constant) never fall below their value
